@@ -81,6 +81,7 @@ static void adv_server_main(void *arg)
 }
 
 /* boots the server up to its first select() */
+static void (*adv_boot_failed)(const struct w_server_cfg *cfg, int state);
 static void adv_boot(const struct w_server_cfg *cfg, int use_v6, int use_bind)
 {
 	adv_cfg = *cfg;
@@ -94,7 +95,11 @@ static void adv_boot(const struct w_server_cfg *cfg, int use_v6, int use_bind)
 	adv_srv_tun = vw_tun_open(0, SRV_TUN_FD);
 	vw_spawn(0, adv_server_main, NULL);
 	vw_run_quiescent(0);
-	if (W.proc[0].state != VW_P_SELECT) vw_fatal("server did not reach select() (state %d)", W.proc[0].state);
+	if (W.proc[0].state != VW_P_SELECT) {
+		/* the server refused its (valid) configuration or ended during start-up: the harness may want to report that */
+		if (adv_boot_failed) { adv_boot_failed(cfg, W.proc[0].state); return; }
+		vw_fatal("server did not reach select() (state %d)", W.proc[0].state);
+	}
 }
 
 /* deliver one datagram to a server socket and run the server until it blocks again
